@@ -259,3 +259,25 @@ def product_statistics(h):
                 hit = 'r[%s] == %d' % (rank, k)
             conj.append('(not (%s) or (%s))' % (inside[k], hit))
         h.check('%s-lists-exactly-the-product-points-with-weight-above-tol-in-order' % what, ' and '.join(conj), r=r, tol=tol, **env)
+
+
+@contract('C19/product_measure.load/appends', ['C19'], D + '::product_measure.load', samples=60)
+def load_appends(h):
+    """load() on a product measure that already has factors APPENDS the new ones (documented: "to append len(pts) new
+    discrete measures"): loading a flattened measure piecewise -- first some factors, then the rest -- gives the whole
+    measure; the earlier factors stay the same objects; trailing values beyond 2*sum(pts) are ignored"""
+    first = h.choice('already_loaded', [(1,), (3,), (2, 1)])
+    rest = h.choice('loaded_now', [(2,), (2, 2), (1, 3)])
+    extra = h.choice('trailing_values', [0, 2])
+    npts = first + rest
+    w, x = _wx(h, npts)
+    W, X = h.clist(w), h.clist(x)
+    pe = _params_expr(npts)
+    cut = 2 * sum(first)
+    vals = [h.ev(e, w=W, x=X) for e in pe]
+    m = h.call(h.get(D + '::product_measure'))
+    h.call(h.getattr(m, 'load'), h.clist(vals[:cut]), first)
+    f0 = h.ev('m[0]', m=m)
+    r = h.call(h.getattr(m, 'load'), h.clist(vals[cut:] + [h.real('y%d' % i) for i in range(extra)]), rest)
+    h.check('piecewise-load-gives-the-whole-measure', _same_measure('m', npts), m=m, w=W, x=X)
+    h.check('earlier-factors-kept-and-self-returned', 'same(r, m) and same(m[0], f0)', r=r, m=m, f0=f0)
